@@ -1028,6 +1028,7 @@ def tree_across_file_systems(run, sb):
     script = f'''set -e
 mount -t tmpfs none {src}/vol1; mount -t tmpfs none {src}/vol2
 for v in vol1 vol2; do mkdir -p {src}/$v/data/deeper {src}/$v/other; echo x > {src}/$v/data/file.txt; echo y > {src}/$v/data/deeper/file.txt; echo z > {src}/$v/other/file.txt; done
+set +e
 {C.CLI_BIN} {src}/ {dst}/ --no-progress > {base}/out.txt 2>&1; echo "rc=$?"
 echo "src=$(find {src} | wc -l) dst=$(find {dst} | wc -l)"
 '''
@@ -1098,3 +1099,318 @@ def arguments_that_are_not_utf8(run, sb):
 
 def run_cli_bytes(args, sb):
     return l4.run_cli(list(args), env=sb.env(), timeout=30)
+
+
+@trial('C05')
+def dry_run_of_a_big_change(run, sb):
+    """more than a thousand deletions and more than a thousand creations in one sync: the dry run names every one of them, at the default verbosity"""
+    base = os.path.join(sb.dir, 'drb'); src, dst = os.path.join(base, 'src'), os.path.join(base, 'dst')
+    n_new, n_old = 1130, 1070
+    l3.make_tree(src, [('', 'D')] + [(f'new{i:04d}.txt', 'F', b'n', 10**18) for i in range(n_new)])
+    l3.make_tree(dst, [('', 'D')] + [(f'old{i:04d}.txt', 'F', b'o', 10**18) for i in range(n_old)])
+    r = l4.run_cli([src + '/', dst + '/', '--dry-run', '--no-progress'], env=sb.env(), timeout=120)
+    out = r['out'] + r['err']
+    missing_new = [i for i in range(n_new) if f'new{i:04d}.txt' not in out]
+    missing_old = [i for i in range(n_old) if f'old{i:04d}.txt' not in out]
+    run.case(('trial', 'dry-run-of-a-big-change'), True, sample=dict(layer='L4', trial='dry-run-of-a-big-change', rc=r['rc'], creations=n_new, deletions=n_old, unnamed=len(missing_new) + len(missing_old)))
+    run.count('trial:dry-run-of-a-big-change')
+    if r['rc'] != 0 or missing_new or missing_old:
+        viol(run, 'a dry run announces every deletion and every creation the real run would make (here: 1070 deletions and 1130 creations in one sync)', rc=r['rc'],
+             creations_not_named=len(missing_new), deletions_not_named=len(missing_old), first_unnamed=([f'new{i:04d}.txt' for i in missing_new[:2]] + [f'old{i:04d}.txt' for i in missing_old[:2]]), tail=out[-300:]); return
+    shutil.rmtree(base, ignore_errors=True)
+
+
+@trial('C17', 'C01', 'C06')
+def root_name_repeats_below_the_root(run, sb):
+    """the root is given as a relative path and its own name occurs again right below it (proj/proj/..., also with a filter that names the inner
+    folder): the listing is relative to the root once"""
+    base = os.path.join(sb.dir, 'rnr'); os.makedirs(base)
+    ents = [('', 'D'), ('main.py', 'F', b'outer', 10**18), ('setup.py', 'F', b'outer-setup', 10**18), ('proj', 'D'), ('proj/main.py', 'F', b'inner', 10**18), ('proj/setup.py', 'F', b'inner-setup', 10**18),
+            ('proj/proj', 'D'), ('proj/proj/deep.py', 'F', b'deep', 10**18), ('proj/build', 'D'), ('proj/build/o.bin', 'F', b'obj', 10**18), ('build', 'D'), ('build/top.bin', 'F', b'top', 10**18)]
+    l3.make_tree(os.path.join(base, 'proj'), ents)
+    want = l3.snapshot(os.path.join(base, 'proj'))
+    for k, (spelling, filt) in enumerate([('proj', []), ('proj/', []), ('proj', ['--filter', '-proj/build']), ('./proj', []), ('proj/', ['--filter', '-proj/proj/.*'])]):
+        dst = os.path.join(base, f'out{k}')
+        r = l4.run_cli([spelling, dst + ('/' if spelling.endswith('/') else '')] + filt + ['--no-progress'], env=sb.env(), cwd=base, timeout=60)
+        got = l3.snapshot(dst)
+        exp = dict(want)
+        if filt and filt[1] == '-proj/build':
+            exp = {p: v for p, v in want.items() if not (p == b'proj/build' or p.startswith(b'proj/build/'))}
+        if filt and filt[1] == '-proj/proj/.*':
+            exp = {p: v for p, v in want.items() if not p.startswith(b'proj/proj/')}
+        run.case(('trial', 'root-name-repeats', k), True, sample=dict(layer='L4', trial='root-name-repeats-below-the-root', spelling=spelling, filters=filt, rc=r['rc'], entries=len(got)))
+        run.count('trial:root-name-repeats-below-the-root')
+        if r['rc'] != 0 or got != exp:
+            diff = sorted(p.decode() for p in set(exp) ^ set(got))[:6] or sorted(p.decode() for p in exp if got.get(p) != exp[p])[:6]
+            viol(run, 'every entry below the root is listed once, by its path relative to the root, and the filters see that path (here: the root is a relative path whose name occurs again below it)',
+                 root_spelling=spelling, filters=filt, cwd='<the folder that holds proj>', rc=r['rc'], differing_paths=diff, stderr=r['err'][-300:]); return
+    shutil.rmtree(base, ignore_errors=True)
+
+
+@trial('C18', 'C16')
+def edge_values_of_numeric_options(run, sb):
+    """--remote-port at the ends of its range with one and with both sides remote, and outside it: a documented status and a message, never a panic"""
+    base = os.path.join(sb.dir, 'evn'); src = os.path.join(base, 'src')
+    l3.make_tree(src, [('', 'D'), ('f', 'F', b'x', 10**18)])
+    sb.place_remote('same')
+    k = 0
+    for port in ('65535', '65534', '1', '0', '65536', '-1', '99999999999999999999'):
+        for placement in ('dest', 'both', 'src'):
+            dst = os.path.join(base, f'd{k}'); k += 1
+            a = [('localhost:' if placement in ('both', 'src') else '') + src + '/', ('localhost:' if placement in ('both', 'dest') else '') + dst + '/', '--remote-port', port, '--no-progress']
+            if port.startswith('-'):
+                a = a[:2] + ['--remote-port=' + port, '--no-progress']
+            r = l4.run_cli(a, env=sb.env(), timeout=60)
+            subprocess.run(['pkill', '-f', sb.remote + '/rjrssync/rjrssync'], capture_output=True)
+            run.case(('trial', 'edge-values-of-numeric-options', port, placement), True, sample=dict(layer='L4', trial='edge-values-of-numeric-options', remote_port=port, remote=placement, rc=r['rc']) if placement == 'both' else None)
+            run.count(f'trial:edge-values-of-numeric-options:rc={r["rc"]}')
+            if r['timeout'] or r['rc'] not in (0, 2, 10, 11, 12) or 'panicked at' in r['err'] or (r['rc'] != 0 and not r['err'].strip()):
+                viol(run, 'every argument vector ends with a documented exit status and, when it fails, an error message - never a panic', args=a, rc=r['rc'], stderr=r['err'][-400:]); return
+    shutil.rmtree(base, ignore_errors=True)
+
+
+@trial('C16', 'C03')
+def root_is_subject_to_both_deletion_behaviours(run, sb):
+    """the destination root has to make way (a file where the source is a folder, a populated folder where the source is a file): the root-deletion
+    behaviour AND the entry-deletion behaviour in force - from the flag, from the spec file, from the flag over the spec file - both have to agree"""
+    base = os.path.join(sb.dir, 'rsb'); os.makedirs(base)
+    k = 0
+    for shape in ('file-in-the-way', 'folder-in-the-way'):
+        for entry in ('error', 'skip', 'delete'):
+            for via in ('flags', 'spec', 'flag-over-spec'):
+                b = os.path.join(base, f'c{k}'); k += 1; os.makedirs(b)
+                src, dst = os.path.join(b, 'src'), os.path.join(b, 'dst')
+                if shape == 'file-in-the-way':
+                    l3.make_tree(src, [('', 'D'), ('a.txt', 'F', b'new', 10**18)]); l3.make_tree(dst, [('', 'F', b'precious', 10**18)])
+                else:
+                    l3.make_tree(src, [('', 'F', b'new', 10**18)]); l3.make_tree(dst, [('', 'D'), ('k1.txt', 'F', b'keep1', 10**18), ('sub', 'D'), ('sub/k2.txt', 'F', b'keep2', 10**18)])
+                before = l3.snapshot(dst)
+                spec = os.path.join(b, 'spec.yaml')
+                if via == 'flags':
+                    a = [src, dst, '--dest-root-needs-deleting', 'delete', '--dest-entry-needs-deleting', entry]
+                elif via == 'spec':
+                    _write_spec(spec, [dict(src=src, dest=dst, dest_root_needs_deleting_behaviour='delete', dest_entry_needs_deleting_behaviour=entry)]); a = ['--spec', spec]
+                else:
+                    other = 'delete' if entry != 'delete' else 'error'
+                    _write_spec(spec, [dict(src=src, dest=dst, dest_root_needs_deleting_behaviour='delete', dest_entry_needs_deleting_behaviour=other)]); a = ['--spec', spec, '--dest-entry-needs-deleting', entry]
+                r = l4.run_cli(a + ['--no-progress'], env=sb.env(), timeout=60)
+                after = l3.snapshot(dst)
+                run.case(('trial', 'root-both-behaviours', shape, entry, via), True, sample=dict(layer='L4', trial='root-is-subject-to-both-deletion-behaviours', shape=shape, entry_deletion=entry, given_by=via, rc=r['rc'], destination_unchanged=after == before) if via == 'flag-over-spec' else None)
+                run.count(f'trial:root-both-behaviours:{entry}:rc={r["rc"]}')
+                bad = None
+                if entry == 'delete':
+                    if r['rc'] != 0 or after != l3.snapshot(src): bad = 'with both behaviours delete the root is replaced by the source'
+                elif after != before:
+                    bad = f'entry deletion is {entry}: the destination keeps every byte and time stamp'
+                elif entry == 'error' and r['rc'] == 0:
+                    bad = 'entry deletion is error: the run exits non-zero'
+                if bad:
+                    viol(run, 'the destination root is deleted only if the root-deletion and the entry-deletion behaviour in force both resolve to delete; the behaviour in force is the flag, else the spec-file value', expected=bad,
+                         shape=shape, entry_deletion=entry, given_by=via, args=a, rc=r['rc'], stderr=r['err'][-300:]); return
+    shutil.rmtree(base, ignore_errors=True)
+
+
+SPECIAL_NAMES = ['Thumbs.db', '.DS_Store', 'desktop.ini', '._clip', 'clip.part', 'clip.tmp', 'clip~', '.clip.swp', 'clip.bak', '.clip.rjrssync', 'clip.partial', 'lost+found', '.git', 'core', '.nfs0001', 'clip.crdownload', '.~lock.clip#']
+
+
+@trial('C03', 'C11', 'C01', 'C06')
+def names_other_tools_treat_specially(run, sb):
+    """names that other tools use for housekeeping or for partial downloads (Thumbs.db, .DS_Store, X.part, X.tmp, X~ ...) are ordinary entries: a file
+    X that appears in the source later does not cost its neighbour X.part, and such a file that a filter protects in a folder that is to be deleted stays"""
+    base = os.path.join(sb.dir, 'nst'); src, dst = os.path.join(base, 'src'), os.path.join(base, 'dst')
+    ents = [('', 'D'), ('media', 'D')] + [('media/' + n, 'F', ('neighbour ' + n).encode() * 3, 10**18 + i) for i, n in enumerate(SPECIAL_NAMES)]
+    l3.make_tree(src, ents)
+    r1 = l4.run_cli([src + '/', dst + '/', '--no-progress'], env=sb.env(), timeout=60)
+    l3.make_tree(src, [('media/clip', 'F', l3.content(5, 30000), 2 * 10**18), ('media/lost+found.part', 'F', l3.content(6, 9000), 2 * 10**18), ('media/Thumbs', 'F', l3.content(7, 9000), 2 * 10**18)])
+    r2 = l4.run_cli([src + '/', dst + '/', '--no-progress'], env=sb.env(), timeout=60)
+    want, got = l3.snapshot(src), l3.snapshot(dst)
+    run.case(('trial', 'special-names', 'later-arrival'), True, sample=dict(layer='L4', trial='names-other-tools-treat-specially', part='a file appears next to X.part / X.tmp / X~', rc=[r1['rc'], r2['rc']], entries=len(got)))
+    run.count('trial:names-other-tools-treat-specially')
+    if r1['rc'] != 0 or r2['rc'] != 0 or want != got:
+        diff = sorted(p.decode() for p in set(want) ^ set(got))[:6] or sorted(p.decode() for p in want if got.get(p) != want[p])[:6]
+        viol(run, 'after a run that exits 0 the destination mirrors the source: every file has its own content (here: files named like partial downloads and housekeeping files, and a file that appears next to them in a second run)',
+             rc=[r1['rc'], r2['rc']], differing_paths=diff, stderr=r2['err'][-300:]); return
+    # a folder that is to be deleted holds such files, which filters protect (or whose deletion the prompt refuses)
+    shutil.rmtree(base, ignore_errors=True)
+    l3.make_tree(src, [('', 'D'), ('a.txt', 'F', b'a', 10**18)])
+    keep = ['Thumbs.db', '.DS_Store', 'desktop.ini', '._x']
+    for k, mode in enumerate(('filter', 'prompt')):
+        shutil.rmtree(dst, ignore_errors=True)
+        l3.make_tree(dst, [('', 'D'), ('a.txt', 'F', b'a', 10**18), ('old', 'D'), ('old/x.txt', 'F', b'stale', 10**18)] + [('old/' + n, 'F', b'precious ' + n.encode(), 981173106 * 10**9) for n in keep])
+        before = {p: v for p, v in l3.snapshot(dst).items() if os.path.basename(p).decode() in keep}
+        if mode == 'filter':
+            a = [src + '/', dst + '/', '--no-progress'] + sum((['--filter', '-(.*/)?' + n.replace('.', '\\.')] for n in keep), [])
+            env = sb.env()
+        else:
+            a = [src + '/', dst + '/', '--no-progress', '--dest-entry-needs-deleting', 'prompt']
+            env = sb.env({'RJRSSYNC_TEST_PROMPT_RESPONSE': ','.join(f'1:.*{n.replace(".", "[.]")}.*:Skip (just this occurence)' for n in keep) + ',9:.*needs deleting.*:Delete (just this occurence)'})
+        r = l4.run_cli(a, env=env, timeout=60)
+        after = {p: v for p, v in l3.snapshot(dst).items() if os.path.basename(p).decode() in keep}
+        run.case(('trial', 'special-names', mode), True, sample=dict(layer='L4', trial='names-other-tools-treat-specially', part='kept by ' + mode + ' inside a folder that is to be deleted', rc=r['rc'], kept=len(after)))
+        if after != before:
+            viol(run, 'a destination entry is deleted only if the behaviour in force agrees (a skipped entry keeps its bytes and timestamp) and an entry the filters exclude is not touched - also when the folder around it is to be deleted',
+                 protected_by=mode, args=a, rc=r['rc'], lost_or_changed=sorted(p.decode() for p in before if after.get(p) != before[p]), stderr=r['err'][-300:]); return
+    shutil.rmtree(base, ignore_errors=True)
+
+
+@trial('C02')
+def source_inodes_are_not_written(run, sb):
+    """the source side only reads: after a run - successful or failing, local or with a remote source - no source entry's inode change time has moved
+    (a content or attribute write of any kind, even one that writes the old values back, moves it)"""
+    base = os.path.join(sb.dir, 'sin'); src = os.path.join(base, 'src')
+    ents = [('', 'D'), ('small', 'F', b's', 10**18), ('big', 'F', l3.content(3, 300000), 10**18 + 5), ('empty', 'F', b'', 10**18), ('sub', 'D'), ('sub/f', 'F', l3.content(4, 5000), 123456789), ('ln', 'L', 'small')]
+    l3.make_tree(src, ents)
+    sb.place_remote('same')
+    def stamps():
+        out = {}
+        for dp, dn, fn in os.walk(src):
+            for n in [''] + dn + fn:
+                p = os.path.join(dp, n) if n else dp
+                st = os.lstat(p); out[os.path.relpath(p, src)] = (st.st_ctime_ns, st.st_mtime_ns)
+        return out
+    time.sleep(0.02)
+    for k, (place, extra) in enumerate([('local', []), ('remote-src', []), ('local', ['--dry-run']), ('local-dest-in-the-way', [])]):
+        dst = os.path.join(base, f'dst{k}')
+        if place == 'local-dest-in-the-way':
+            l3.make_tree(dst, [('', 'D'), ('big', 'D'), ('big/x', 'F', b'x', 10**18)]); extra = ['--dest-entry-needs-deleting', 'error']
+        before = stamps()
+        r = l4.run_cli([('localhost:' if place == 'remote-src' else '') + src + '/', dst + '/', '--no-progress'] + extra, env=sb.env(), timeout=60)
+        after = stamps()
+        run.case(('trial', 'source-inodes', place, tuple(extra)), True, sample=dict(layer='L4', trial='source-inodes-are-not-written', placement=place, extra=extra, rc=r['rc']))
+        run.count('trial:source-inodes-are-not-written')
+        moved = sorted(p for p in before if after.get(p) != before[p]) + sorted(p for p in after if p not in before)
+        if moved:
+            viol(run, 'nothing under the source path is created, deleted, renamed or altered; the source-side doer only reports its root, lists entries and reads file contents (the inode change time of a source entry moved: something wrote to it)',
+                 placement=place, extra=extra, rc=r['rc'], entries_written_to=moved[:6]); return
+    shutil.rmtree(base, ignore_errors=True)
+
+
+@trial('C15')
+def slow_remote_end(run, sb):
+    """a doer of the right version on a slow link: the key reaches it a good while (12 s) after it announced itself, and its answer takes as long
+    again to arrive - the order of the handshake lines is the causal one, only slow: the launch succeeds (two variants run side by side)"""
+    base = os.path.join(sb.dir, 'sre'); src = os.path.join(base, 'src')
+    l3.make_tree(src, [('', 'D'), ('f', 'F', b'x', 10**18)])
+    sb.place_remote('same')
+    variants = {'key-delivered-late': '(sleep 12; exec cat) | "$REAL_SSH" "$@"\n',
+                'answer-delivered-late': '"$REAL_SSH" "$@" 2> >(while IFS= read -r l; do case "$l" in *Waiting*) sleep 12;; esac; echo "$l" >&2; done)\n'}
+    procs = {}
+    for vname, body in variants.items():
+        bindir = _wrap_ssh(sb, 'bin-' + vname, body)
+        env = sb.env(); env['PATH'] = bindir + ':' + env['PATH']
+        a = [src + '/', 'localhost:' + os.path.join(base, 'dst-' + vname) + '/', '--deploy', 'error', '--no-progress']
+        procs[vname] = (a, time.time(), subprocess.Popen([C.CLI_BIN] + a, env=env, stdin=subprocess.DEVNULL, stdout=subprocess.PIPE, stderr=subprocess.PIPE))
+    for vname, (a, t0, p) in procs.items():
+        try:
+            out, err = p.communicate(timeout=90); rc = p.returncode
+        except subprocess.TimeoutExpired:
+            p.kill(); out, err = p.communicate(); rc = None
+        wall = time.time() - t0
+        ok = rc == 0 and os.path.exists(os.path.join(base, 'dst-' + vname, 'f'))
+        run.case(('trial', 'slow-remote-end', vname), True, sample=dict(layer='L4', trial='slow-remote-end', variant=vname, rc=rc, wall_s=round(wall, 1)))
+        run.count(f'trial:slow-remote-end:rc={rc}')
+        if not ok:
+            for _, _, q in procs.values():
+                if q.poll() is None: q.kill()
+            subprocess.run(['pkill', '-f', sb.remote + '/rjrssync/rjrssync'], capture_output=True)
+            viol(run, 'the launch succeeds for every causally possible interleaving of the handshake lines, however slowly they arrive; a doer that announced exactly the boss\'s version is used',
+                 variant=vname, args=a, rc=rc, wall_s=round(wall, 1), stderr=err.decode(errors='replace')[-400:]); return
+    subprocess.run(['pkill', '-f', sb.remote + '/rjrssync/rjrssync'], capture_output=True)
+    shutil.rmtree(base, ignore_errors=True)
+
+
+@trial('C04', 'C17')
+def mount_point_inside_the_destination(run, sb):
+    """a folder inside the destination tree is a mount point of another file system (a tmpfs) where the source has an ordinary folder with files:
+    the first run writes through it, the identical second run finds everything in place"""
+    base = os.path.join(sb.dir, 'mpd'); src, dst = os.path.join(base, 'src'), os.path.join(base, 'dst')
+    l3.make_tree(src, [('', 'D'), ('top', 'F', b't', 10**18), ('media', 'D'), ('media/f1', 'F', b'one', 10**18), ('media/deep', 'D'), ('media/deep/f2', 'F', b'two', 10**18 + 7)])
+    os.makedirs(os.path.join(dst, 'media'))
+    script = f'''set -e
+mount -t tmpfs none {dst}/media
+set +e
+{C.CLI_BIN} {src}/ {dst}/ --no-progress > {base}/out1.txt 2>&1; echo "rc1=$?"
+{C.CLI_BIN} {src}/ {dst}/ --no-progress -v > {base}/out2.txt 2>&1; echo "rc2=$?"
+echo "src=$(find {src} | wc -l) dst=$(find {dst} | wc -l)"
+'''
+    res = _in_mount_namespace(script)
+    if res is None or 'rc2=' not in res[1]:
+        run.count('trial:mount-point-inside-the-destination:mount-not-possible'); shutil.rmtree(base, ignore_errors=True); return
+    import re
+    rc1, rc2 = int(re.search(r'rc1=(\d+)', res[1]).group(1)), int(re.search(r'rc2=(\d+)', res[1]).group(1))
+    out2 = open(os.path.join(base, 'out2.txt'), errors='replace').read()
+    m2 = re.search(r'src=(\d+) dst=(\d+)', res[1])
+    run.case(('trial', 'mount-point-inside-the-destination'), True, sample=dict(layer='L4', trial='mount-point-inside-the-destination', rc=[rc1, rc2], nothing_to_do='Nothing to do' in out2))
+    run.count('trial:mount-point-inside-the-destination')
+    if rc1 == 0 and (rc2 != 0 or 'Nothing to do' not in out2):
+        viol(run, 'if a sync exits 0 without skips, running the identical command again reports that there is nothing to do (here: a destination folder is the mount point of another file system)',
+             rc=[rc1, rc2], second_run_output=out2[-400:]); return
+    if rc1 == 0 and m2 and m2.group(1) != m2.group(2):
+        viol(run, 'listing a folder reports every entry beneath it exactly once, for every tree shape (here: a destination with a mount point inside)', rc=[rc1, rc2], entries=[m2.group(1), m2.group(2)]); return
+    shutil.rmtree(base, ignore_errors=True)
+
+
+@trial('C06', 'C16', 'C07')
+def spec_syncs_with_repeated_filter_lists(run, sb):
+    """consecutive syncs of a spec file with the SAME non-empty filter list (also A, B, B), where an earlier sync leaves one side unlisted (its
+    destination root does not exist yet; its source root is a file): each sync behaves exactly like the same sync given alone as SRC DEST --filter ..."""
+    base = os.path.join(sb.dir, 'rfl')
+    A, B = ['-.*\\.log'], ['-secret', '-.*\\.tmp', '-keep(/.*)?']
+    def build(root):
+        os.makedirs(root)
+        s1 = os.path.join(root, 's1'); l3.make_tree(s1, [('', 'D'), ('a.log', 'F', b'log', 10**18), ('a.txt', 'F', b'a', 10**18)])
+        s2 = os.path.join(root, 's2'); l3.make_tree(s2, [('', 'F', b'just a file', 10**18)])
+        s3 = os.path.join(root, 's3'); l3.make_tree(s3, [('', 'D'), ('secret', 'F', b's', 10**18), ('notes.tmp', 'F', b'n', 10**18), ('x.log', 'F', b'l', 10**18), ('pub.txt', 'F', b'p', 10**18)])
+        d3 = os.path.join(root, 'd3'); l3.make_tree(d3, [('', 'D'), ('keep', 'D'), ('keep/precious.txt', 'F', b'precious', 10**18), ('mine.tmp', 'F', b'm', 10**18), ('stale.txt', 'F', b'st', 10**18)])
+        s4 = os.path.join(root, 's4'); l3.make_tree(s4, [('', 'D'), ('secret', 'F', b's4', 10**18), ('t.tmp', 'F', b't', 10**18), ('ok.txt', 'F', b'o', 10**18)])
+        return [(s1 + '/', os.path.join(root, 'd1') + '/', A), (s2, os.path.join(root, 'd2'), B), (s3 + '/', d3 + '/', B), (s4 + '/', os.path.join(root, 'd4') + '/', B)]
+    in_spec = build(os.path.join(base, 'spec')); alone = build(os.path.join(base, 'alone'))
+    spec = os.path.join(base, 'spec.yaml')
+    _write_spec(spec, [dict(src=s, dest=d, filters='[ ' + ', '.join("'" + f + "'" for f in fl) + ' ]') for s, d, fl in in_spec])
+    r = l4.run_cli(['--spec', spec, '--no-progress'], env=sb.env(), timeout=120)
+    rcs = []
+    for s, d, fl in alone:
+        ra = l4.run_cli([s, d, '--no-progress'] + sum((['--filter', f] for f in fl), []), env=sb.env(), timeout=60); rcs.append(ra['rc'])
+    run.case(('trial', 'spec-repeated-filter-lists'), True, sample=dict(layer='L4', trial='spec-syncs-with-repeated-filter-lists', rc_spec=r['rc'], rc_alone=rcs))
+    run.count('trial:spec-syncs-with-repeated-filter-lists')
+    if (r['rc'] == 0) != all(x == 0 for x in rcs):
+        viol(run, 'a sync described in a spec file behaves exactly like the same sync given as SRC DEST', filter_lists=[fl for _, _, fl in in_spec], rc_spec=r['rc'], rc_alone=rcs, stderr=r['err'][-400:]); return
+    for i, ((_, d_spec, fl), (_, d_alone, _)) in enumerate(zip(in_spec, alone)):
+        a, b = l3.snapshot(d_spec.rstrip('/')), l3.snapshot(d_alone.rstrip('/'))
+        if a != b:
+            viol(run, 'a sync described in a spec file behaves exactly like the same sync given as SRC DEST: an entry takes part iff it survives that sync\'s filter list, on both sides alike',
+                 sync_index=i, filters=fl, filter_lists=[x for _, _, x in in_spec], only_in_spec_run=sorted(p.decode() for p in set(a) - set(b)), only_in_single_run=sorted(p.decode() for p in set(b) - set(a)),
+                 differing=sorted(p.decode() for p in set(a) & set(b) if a[p] != b[p])); return
+    shutil.rmtree(base, ignore_errors=True)
+
+
+@trial('C10')
+def nonces_on_the_recorded_wire(run, sb):
+    """the TCP link of a real run (remote destination / remote source; automatic port and --remote-port) goes through a recording proxy, the key is
+    taken from what the boss writes to ssh: every frame of either direction authenticates under a nonce of its own - no nonce serves twice under one key"""
+    import glob, socket
+    base = os.path.join(sb.dir, 'now'); src = os.path.join(base, 'src')
+    l3.make_tree(src, [('', 'D'), ('a', 'F', b'a' * 100, 10**18), ('b', 'F', l3.content(2, 20000), 10**18), ('sub', 'D'), ('sub/c', 'F', b'c', 10**18)])
+    sb.place_remote('same')
+    s_ = socket.socket(); s_.bind(('127.0.0.1', 0)); free_port = s_.getsockname()[1]; s_.close()
+    for k, (place, extra) in enumerate([('dest', []), ('dest', ['--remote-port', str(free_port)]), ('src', ['--remote-port', str(free_port)])]):
+        rec, klog = os.path.join(base, f'rec{k}'), os.path.join(base, f'keys{k}')
+        a = [('localhost:' if place == 'src' else '') + src + '/', ('localhost:' if place == 'dest' else '') + os.path.join(base, f'dst{k}') + '/', '--deploy', 'error', '--no-progress'] + extra
+        r = l4.run_cli(a, env=sb.env({'FAKE_RECORD': rec, 'FAKE_KEY_LOG': klog}), timeout=60)
+        subprocess.run(['pkill', '-f', sb.remote + '/rjrssync/rjrssync'], capture_output=True)
+        files = sorted(glob.glob(rec + '.*'))
+        keys = [l.strip() for l in open(klog).read().split('\n') if l.strip()] if os.path.exists(klog) else []
+        if r['rc'] != 0 or len(keys) != 1 or len(files) != 2:
+            run.count('trial:nonces-on-the-recorded-wire:not-recorded'); continue
+        ans = C.run_harness(['wirenonces ' + keys[0].zfill(32) + ' ' + ' '.join(C.X(f_) for f_ in files)])[0][0]
+        per_dir = [[int(x) for x in part.split(',') if x] for part in ans.split('|')] if '|' in ans else []
+        flat = [n for part in per_dir for n in part]
+        if not flat:
+            run.count('trial:nonces-on-the-recorded-wire:not-evaluated'); continue
+        run.case(('trial', 'nonces-on-the-recorded-wire', place, tuple(extra[:1])), True, sample=dict(layer='L4', trial='nonces-on-the-recorded-wire', remote=place, remote_port=bool(extra), frames=[len(p) for p in per_dir], nonces_distinct=len(set(flat)) == len(flat)))
+        run.count('trial:nonces-on-the-recorded-wire'); run.count('trial:nonces-on-the-recorded-wire:frames', len(flat))
+        if -1 in flat or len(set(flat)) != len(flat):
+            dup = sorted({n for n in flat if flat.count(n) > 1})
+            viol(run, 'no nonce is used twice under one session key: every frame on the wire, in either direction, is sealed under a nonce of its own', remote=place, args=a,
+                 nonce_of_each_frame_by_direction=dict(zip([os.path.basename(f_).rsplit('.', 1)[1] for f_ in files], [p[:12] for p in per_dir])), nonces_used_twice=dup[:6], frames_that_authenticate_under_no_expected_nonce=flat.count(-1)); return
+    shutil.rmtree(base, ignore_errors=True)
